@@ -15,7 +15,7 @@ EXTENDS Naturals, Integers, Sequences, FiniteSets, Json, IOUtils, TLC
 Rec == ndJsonDeserialize(IOEnv.TRACE)
 VARIABLES l, clientText, clientCfg, published, tainted
 
-Urls == {0, 1, 2, 3}
+Urls == {0, 1, 2, 3, 4, 5}
 \* tainted: urls left stale by an overlapping batch (already reported); cleared when the client
 \* sends a new text for the url
 Nothing == {[t |-> "none", c |-> ""]}
